@@ -459,7 +459,34 @@ struct chain {
 	int           tran_rep;
 	int           ndeliv, ndrop;
 	char          ctx[96];
+	// Responses of all requesters share one pipe from the second hop on.
+	// xrespondent queues 2 messages per pipe and drops the rest (best
+	// effort), xrep queues 64: bound the exchanges in flight accordingly so
+	// that a loss can only be a routing/TTL fault, never back-pressure.
+	pthread_mutex_t gate_mtx;
+	pthread_cond_t  gate_cv;
+	int             gate_free;
 };
+
+static void
+gate_enter(chain *c)
+{
+	pthread_mutex_lock(&c->gate_mtx);
+	while (c->gate_free == 0) {
+		pthread_cond_wait(&c->gate_cv, &c->gate_mtx);
+	}
+	c->gate_free--;
+	pthread_mutex_unlock(&c->gate_mtx);
+}
+
+static void
+gate_leave(chain *c)
+{
+	pthread_mutex_lock(&c->gate_mtx);
+	c->gate_free++;
+	pthread_cond_signal(&c->gate_cv);
+	pthread_mutex_unlock(&c->gate_mtx);
+}
 
 // 0 = delivered, else the index of the socket that must discard the request
 static int
@@ -644,13 +671,22 @@ requester_main(void *arg)
 			nng_msg_header_append_u32(m, 0x80000000u | (uint32_t) vf_mix64(q->key + (uint64_t) i * 31 + (uint64_t) ph));
 			memcpy(q->shdr[ph][i], nng_msg_header(m), nng_msg_header_len(m));
 		}
+		if (d == 0) {
+			gate_enter(c);
+		}
 		if ((rv = nng_sendmsg(q->s, m, 0)) != 0) {
+			if (d == 0) {
+				gate_leave(c);
+			}
 			nng_msg_free(m);
 			vf_violation("C13/request-send-failed", "%s: requester %d could not send: %s", c->ctx, q->id, nng_strerror(rv));
 			break;
 		}
 		q->sent[ph] = i + 1;
 		rv          = nng_recvmsg(q->s, &r, 0);
+		if (d == 0) {
+			gate_leave(c);
+		}
 		if (d != 0) {
 			if (rv == 0) {
 				vf_violation("C13/over-ttl-answered", "%s: requester %d got a reply although its request arrives at socket %d with %d backtrace words and MAXTTL there is %d", c->ctx, q->id, d, d + q->b0, c->ttl[ph][d]);
@@ -723,8 +759,11 @@ chain_gen_ttl(chain *c, vf_rng *r, int scen)
 		case 3:
 			c->ttl[0][j] = (int) vf_range(r, 1, 15);
 			break;
-		default:
+		case 4:
 			c->ttl[0][j] = j == 1 ? (int) vf_range(r, 1, 15) : c->ttl[0][1];
+			break;
+		default:
+			c->ttl[0][j] = 15;
 			break;
 		}
 	}
@@ -789,7 +828,16 @@ chain_case(long idx)
 		q->pre[1]    = (uint32_t) vf_rand(&r) & 0x7fffffffu;
 		q->key       = vf_rand(&r);
 	}
+	if (vf_chance(&r, 1, 8)) {
+		// header at capacity: 14 devices + raw replier = 16 header words
+		c->k       = 14;
+		c->rep_raw = true;
+		scen       = 5;
+	}
 	chain_gen_ttl(c, &r, scen);
+	pthread_mutex_init(&c->gate_mtx, NULL);
+	pthread_cond_init(&c->gate_cv, NULL);
+	c->gate_free = c->fam == 1 ? 2 : MAXREQ;
 	snprintf(c->ctx, sizeof(c->ctx), "%s k=%d", c->f->name, c->k);
 	vf_case_begin(idx, "chain fam=%s k=%d nreq=%d taps=%d scen=%d phases=%d rawrep=%d", c->f->name, c->k, c->nreq, ntaps, scen, c->nphase, c->rep_raw);
 	vf_watchdog(180);
@@ -1015,6 +1063,8 @@ chain_case(long idx)
 			free(c->h[j].tp);
 		}
 	}
+	pthread_mutex_destroy(&c->gate_mtx);
+	pthread_cond_destroy(&c->gate_cv);
 	free(c);
 	vf_stat("cases", 1);
 	lib_cycle(false);
